@@ -105,7 +105,9 @@ impl Term {
         match self {
             Var(ref mut i) => {
                 if *i > own_depth {
-                    *i += added_depth
+                    // never wrap around: in release builds a wrapped index would silently turn a free
+                    // variable into `UD` or into a bound one
+                    *i = i.checked_add(added_depth).expect("De Bruijn index overflow")
                 }
             }
             Abs(ref mut abstracted) => abstracted.update_free_variables(added_depth, own_depth + 1),
